@@ -124,7 +124,7 @@ impl<'a> Gen<'a> {
         let n = bits(t);
         let v: i128 = if is_narrow(t) {
             let (min, max) = if signed(t) { (-(1i128 << (n - 1)), (1i128 << (n - 1)) - 1) } else { (0, (1i128 << n) - 1) };
-            match self.rng.below(8) { 0 => min, 1 => max, 2 => 0, 3 => 1, 4 => 2, 5 => max / 2, _ => min + (self.rng.next() as i128).rem_euclid(max - min + 1) }
+            match self.rng.below(10) { 0 => min, 1 => max, 2 => 0, 3 => 1, 4 => 2, 5 => max / 2, 6 | 7 => { let c = 3 + self.rng.below(5) as i128; if signed(t) && self.rng.chance(1, 3) { -c } else { c } }, _ => min + (self.rng.next() as i128).rem_euclid(max - min + 1) }
         } else {
             let m = self.rng.below(40) as i128;
             if signed(t) && self.rng.chance(1, 3) { -m } else { m }
@@ -137,9 +137,9 @@ impl<'a> Gen<'a> {
             Ty::Int(t) => self.int_lit(t),
             Ty::Arr(e, n) => {
                 if self.rng.chance(1, 3) { format!("[{}; {}]", self.expr(e, depth), n) }
-                else { format!("[{}]", (0..*n).map(|_| self.expr(e, depth)).collect::<Vec<_>>().join(", ")) }
+                else { format!("[{}]", (0..*n).map(|_| self.maybe_effect_block(e, depth)).collect::<Vec<_>>().join(", ")) }
             }
-            Ty::Tup(fs) => format!("({})", fs.clone().iter().map(|f| self.expr(f, depth)).collect::<Vec<_>>().join(", ")),
+            Ty::Tup(fs) => format!("({})", fs.clone().iter().map(|f| self.maybe_effect_block(f, depth)).collect::<Vec<_>>().join(", ")),
             Ty::Struct(i) => {
                 let (name, fields) = self.structs[*i].clone();
                 let mut fs: Vec<String> = fields.iter().map(|(n, t)| format!("{n}: {}", self.expr(t, depth))).collect();
@@ -201,7 +201,10 @@ impl<'a> Gen<'a> {
     fn compound_source(&mut self, ty: &Ty, d: usize) -> String {
         for _ in 0..4 {
             match self.rng.below(8) {
-                0 | 1 => { let c = self.head_expr(&Ty::Bool, d); return format!("(if {c} {{ {} }} else {{ {} }})", self.branch(ty, d), self.branch(ty, d)); }
+                0 | 1 => {
+                    let c = if self.effects_in_exprs && self.rng.chance(1, 3) { let b = self.maybe_effect_block(&Ty::Bool, d); if b.contains("Sa {") { self.head_expr(&Ty::Bool, d) } else { b } } else { self.head_expr(&Ty::Bool, d) };
+                    return format!("(if {c} {{ {} }} else {{ {} }})", self.branch(ty, d), self.branch(ty, d));
+                }
                 2 => return self.match_expr(ty, d),
                 3 => { // index into an array variable
                     let cands: Vec<Var> = self.visible().into_iter().filter(|v| matches!(&v.ty, Ty::Arr(e, n) if **e == *ty && *n > 0)).collect();
@@ -227,7 +230,7 @@ impl<'a> Gen<'a> {
                         self.used_fns[i] = true;
                         let ps: Vec<Ty> = self.fns[i].params.iter().map(|p| p.1.clone()).collect();
                         let name = self.fns[i].name.clone();
-                        return format!("{name}({})", ps.iter().map(|t| self.expr(t, d)).collect::<Vec<_>>().join(", "));
+                        return format!("{name}({})", ps.iter().map(|t| self.maybe_effect_block(t, d)).collect::<Vec<_>>().join(", "));
                     }
                 }
                 6 if self.effects_in_exprs => { // a block with an effect as an `if` branch
@@ -238,6 +241,16 @@ impl<'a> Gen<'a> {
             }
         }
         self.lit(ty, d)
+    }
+
+    /// in effects mode: `{ v = e; <expr> }` in a position where a block expression is allowed
+    /// (let initialiser, call argument, array / tuple element, if condition, index)
+    fn maybe_effect_block(&mut self, ty: &Ty, d: usize) -> String {
+        if self.effects_in_exprs && self.rng.chance(1, 3) {
+            let muts: Vec<Var> = self.visible().into_iter().filter(|v| v.mutable && matches!(v.ty, Ty::Int(_) | Ty::Bool)).collect();
+            if !muts.is_empty() { return format!("{{ {} }}", self.block_with_effect(ty, d)); }
+        }
+        self.expr(ty, d)
     }
 
     fn branch(&mut self, ty: &Ty, d: usize) -> String {
@@ -284,7 +297,8 @@ impl<'a> Gen<'a> {
     fn match_expr(&mut self, ty: &Ty, d: usize) -> String {
         // scrutinee: bool, narrow int, enum or tuple of (bool, u8)
         let st = match self.rng.below(5) { 0 => Ty::Bool, 1 | 2 => Ty::Int(*self.rng.pick(&NARROW)), 3 if !self.enums.is_empty() => Ty::Enum(self.rng.below(self.enums.len())), _ => Ty::Tup(vec![Ty::Bool, Ty::Int("u8")]) };
-        let scrut = self.head_expr(&st, d);
+        let svars = self.vars_of(&st);
+        let scrut = if !svars.is_empty() && self.rng.chance(2, 3) { self.rng.pick(&svars).name.clone() } else { self.head_expr(&st, d) };
         let mut arms: Vec<String> = vec![];
         match &st {
             Ty::Bool => {
@@ -394,7 +408,7 @@ impl<'a> Gen<'a> {
             return format!("{place} = {};", self.expr(&pty, d));
         }
         match k % 6 {
-            0 => { let t = self.any_ty(1); let n = self.fresh("v"); let e = self.expr(&t, d); let s = if self.rng.bool() { format!("let {n}: {} = {e};", self.ty_str(&t)) } else { format!("let {n} = {e};") }; self.declare(&n, t, false); s }
+            0 => { let t = self.any_ty(1); let n = self.fresh("v"); let e = self.maybe_effect_block(&t, d); let s = if self.rng.bool() { format!("let {n}: {} = {e};", self.ty_str(&t)) } else { format!("let {n} = {e};") }; self.declare(&n, t, false); s }
             1 => { let t = self.any_ty(1); let n = self.fresh("w"); let e = self.expr(&t, d); let s = format!("let mut {n}: {} = {e};", self.ty_str(&t)); self.declare(&n, t, true); s }
             2 => { // destructuring let
                 let fs: Vec<Ty> = vec![self.scalar_ty(), self.scalar_ty()];
@@ -502,8 +516,9 @@ impl<'a> Gen<'a> {
             params.push((format!("x{k}"), t));
         }
         let ret = self.any_ty(2);
-        self.scopes = vec![params.iter().map(|(n, t)| Var { name: n.clone(), ty: t.clone(), mutable: false }).collect()];
-        let ps: Vec<String> = params.iter().map(|(n, t)| format!("{n}: {}", self.ty_str(t))).collect();
+        let main_muts: Vec<bool> = params.iter().map(|_| self.rng.chance(1, 3)).collect();
+        self.scopes = vec![params.iter().zip(main_muts.iter()).map(|((n, t), m)| Var { name: n.clone(), ty: t.clone(), mutable: *m }).collect()];
+        let ps: Vec<String> = params.iter().zip(main_muts.iter()).map(|((n, t), m)| format!("{}{n}: {}", if *m { "mut " } else { "" }, self.ty_str(t))).collect();
         let main_header_at = out.len();
         // every private fn must be used
         let mut body = String::new();
